@@ -126,6 +126,50 @@ def r3_announcement_wiring(cx):
         cx.check("claims-expired:" + fn.name, len(z2) >= 1, site_of(fn), "%s zeroes the expiry of the peer's dropped claims in a sweep" % fn.name)
 
 
+def r5_withdrawal_by_membership(cx):
+    """"Dropped claims disappear at once": whether a stored claim of the announcing peer is kept or withdrawn must
+    be decided by looking it up in the announcement itself.  Rule: in ClaimTable::set_claims every store that
+    zeroes a ClaimEntry expiry lies behind the not-found edge of a search (position / contains / any / find) over
+    the announced list (parameter 3) - not behind a comparison of time stamps or counters, which cannot tell two
+    announcements processed in the same second apart."""
+    prog = cx.prog
+    sc = A.method(prog, "ClaimTable", "set_claims")
+    cx.touch(sc)
+    SEARCH = ("iter::Iterator::position", "iter::Iterator::any", "iter::Iterator::find", "iter::Iterator::find_map",
+              "slice::<impl [T]>::contains", "iter::Iterator::rposition")
+    not_found = set()
+    searches = 0
+    for ci, ct in sc.calls():
+        if not callee_is(ct, *SEARCH) or not ct["args"]:
+            continue
+        cur = ct["args"][0]
+        over_announcement = False
+        for _ in range(6):
+            r = deep_root(sc, cur)
+            if r is not None and r["l"] == 3 and not [e for e in r.get("p", []) if e["k"] == "field"]:
+                over_announcement = True
+                break
+            o = origin(sc, cur)
+            if o[0] == "call" and o[2]["args"]:
+                cur = o[2]["args"][0]
+                continue
+            break
+        if not over_announcement:
+            continue
+        searches += 1
+        not_found |= success_edges(sc, ci).err_edges
+    cx.floor("announcement-searches", searches, 1, "searches over the announced claim list in set_claims")
+    zero = [(bi, s) for bi, si, s in sc.stmts() if s["k"] == "assign" and place_is_field(s["place"], "ClaimEntry", "timeout")
+            and s["rv"]["k"] == "use" and op_const(s["rv"]["op"]) == 0]
+    inner = [(cb, bi) for (cb, bi) in sweep_stores(prog, sc, "ClaimEntry", "timeout", 0) if cb.did != sc.did]
+    cx.floor("withdrawal-stores", len(zero) + len(inner), 1, "stores that expire a claim in set_claims")
+    for bi, s in zero:
+        cx.check("withdrawn-iff-not-announced", dominated_by_edges(sc, not_found, bi), site_of(sc, span=s["span"]),
+                 "a stored claim is expired only on the not-found edge of a search over the announced list")
+    for cb, bi in inner:
+        cx.check("withdrawn-iff-not-announced", False, site_of(cb, bi), "a claim is expired inside a closure: the membership test could not be related to the store (unrecognised idiom, fail closed)")
+
+
 def r4_who_may_refresh(cx):
     prog = cx.prog
     w = field_writes(prog, "ClaimEntry", "timeout")
@@ -147,6 +191,7 @@ RULES = [
     ("C12.R2", r2_complete_sweep, "claim/cache sweeps in set_claims/remove_claims/housekeep leave only by exhaustion"),
     ("C12.R3", r3_announcement_wiring, "node info always reaches set_claims; add_new_peer announces; sweeps end with expiry"),
     ("C12.R4", r4_who_may_refresh, "who may write ClaimEntry.timeout / construct claims"),
+    ("C12.R5", r5_withdrawal_by_membership, "a stored claim is withdrawn iff it is not found in the announcement (membership, not time stamps)"),
 ]
 
 LEVEL_TEXT = ("Static pairing / sweep / who-may-write rules on MIR: every removal from the peer map is followed by removal of that peer's "
